@@ -23,6 +23,8 @@ type Ctx struct {
 	LoadOther func(dir, goos string, patterns ...string) (*ir.Universe, error)
 
 	descDepth int
+	loopMemo  map[*ssa.Function][]*ir.Loop
+	phiStack  map[*ssa.Phi]bool
 }
 
 // Property describes one registered property rule set.
